@@ -209,6 +209,9 @@ class Sandbox:
 
         self.clear_exception()
 
+        # Context ids are positions in the history; an execution that ended with a
+        # KeyboardInterrupt or the like was recorded but never counted
+        self._next_context_id = len(self._context)
         context = SandboxContext(self._next_context_id, code, filename, kind,
                                  self.target, [], "",
                                  self.exception, self.report.submission, **meta)
@@ -379,7 +382,7 @@ class Sandbox:
         actual, student, arguments = self._construct_call(function, args, kwargs,
                                                           args_locals, kwargs_locals,
                                                           target)
-        context_id = self._next_context_id
+        context_id = self._next_context_id = len(self._context)
 
         self._execute(actual, self.report.submission.instructor_file,
                       SandboxContextKind.CALL, threaded,
@@ -414,7 +417,7 @@ class Sandbox:
             threaded = self.threaded
         self.target = target
         code = f"{target} = {code}"
-        context_id = self._next_context_id
+        context_id = self._next_context_id = len(self._context)
         self._execute(code, self.report.submission.instructor_file,
                       SandboxContextKind.EVAL, threaded=threaded)
         return self._handle_result(target, context_id)
@@ -945,7 +948,7 @@ class Sandbox:
         except KeyError:
             exception = NameError(f"NameError: name '{item}' is not defined")
         filename = self.report.submission.instructor_file
-        context_id = self._next_context_id
+        context_id = self._next_context_id = len(self._context)
         best_context = self._guess_context(item)
         if best_context is None:
             context = SandboxContext(context_id, str(item), filename,
